@@ -26,6 +26,7 @@ N5 = "C15-N5:non-finite-coordinate-hangs-boundary-check"
 N6 = "C15-N6:whfast-jacobi-arrays-not-updated-by-tree-update"
 N7 = "C15-N7:merge-product-on-face-lost-by-post-collision-tree-update"
 N8 = "C15-N8:whfast-open-boundary-N_active-crash"
+N9 = "C15-N9:refused-particle-appended-with-null-cell-pointer"
 
 _rebound = None
 _lib = None
@@ -1004,7 +1005,11 @@ def run_boundary(cfg, rows, out, with_tree):
     rs, nx, ny, nz = box_of(cfg)
     Ls = [rs * nx, rs * ny, rs * nz]
     sim = make_sim(cfg, tree=with_tree)
-    add_parts(sim, cfg)
+    if add_parts(sim, cfg):
+        # a particle was refused (coincident / too close to separate): it is appended to the array but not to the tree, with a
+        # NULL cell pointer that a later swap dereferences — the code said so with an error; outside the hypothesis
+        out.inc("configs_rejected_at_add")
+        return
     n = sim.N
     if n != len(rows):
         out.inc("boundary_skipped_add_failed")
@@ -1262,6 +1267,30 @@ def run_probe(job, out):
         if len(ps) != 2 or any(not (p["x"] == p["x"] and p["y"] == p["y"]) for p in ps):
             out.viol.append((N6, "WHFast with tree gravity and an open boundary: after the step in which one particle left the box "
                              "N=%d, x=%s" % (len(ps), [p["x"] for p in ps]), job))
+    elif what == "refused add + tree update":
+        # a coincident particle is refused with an error — but it must then not stay in the array with a NULL cell pointer
+        sim = _rebound.Simulation()
+        sim.configure_box(4.0)
+        sim.gravity = "tree"
+        sim.boundary = "periodic"
+        sim.integrator = "leapfrog"
+        sim.dt = 0.01
+        P = _rebound.Particle
+        for x in (0.5, -0.5, 0.5):
+            p = P(); p.x, p.y, p.z, p.m = x, 0.5, 0.5, 1.0
+            _clib.reb_simulation_add(ctypes.byref(sim), p)
+        refused = any("same coordinates" in t for _, t in messages(sim))
+        leaves = sorted(I[3] for D, I in (get_dump(sim) or []) if I[3] >= 0)
+        if refused and sim.N != len(leaves):
+            out.notes["n9_state"] = "N=%d leaves=%s" % (sim.N, leaves)
+            with open(_marker[0], "w") as f:
+                f.write("refused-particle-in-array")
+        set_parts(sim, [[-1.5, 0.5, 0.5, 0, 0, 0]])
+        _clib.reb_simulation_update_tree(ctypes.byref(sim))       # dereferences the NULL cell pointer of the refused particle
+        if os.path.exists(_marker[0]):
+            os.remove(_marker[0])
+        if refused and sim.N != len([1 for D, I in (get_dump(sim) or []) if I[3] >= 0]):
+            out.viol.append((N9, "a refused particle stays in the particle array outside the tree (N=%d)" % sim.N, job))
     elif what == "variational+collision tree":
         # variational particles are not particles: they must not be put into the tree
         sim.gravity = "basic"
@@ -1628,7 +1657,8 @@ def run(c):
         cfg["rounds"] = rng.randint(1, 4)
         cfg["boundary"] = rng.choice(["periodic", "open", "shear", "none"])
         jobs.append(dict(kind="scramble", cfg=cfg))
-    for what in ("x=+inf periodic", "x=-inf shear", "x=nan periodic", "variational+collision tree", "whfast+open+tree"):
+    for what in ("x=+inf periodic", "x=-inf shear", "x=nan periodic", "variational+collision tree", "whfast+open+tree",
+                 "refused add + tree update"):
         jobs.append(dict(kind="probe", probe=what, timeout=4))
     # interleave the kinds so that every batch exercises all of them
     order = list(range(len(jobs)))
@@ -1648,7 +1678,10 @@ def run(c):
                 what = "the real code %s on a generated %s case" % ("crashed (signal %s)" % res.get("crash") if res.get("crash") is not None else "did not return within the time limit", job["kind"])
                 if job["kind"] == "probe":
                     st["totals"]["dim:probe:" + job["probe"]] = st["totals"].get("dim:probe:" + job["probe"], 0) + 1
-                    if res.get("hang") and "inf" in job["probe"]:
+                    if res.get("marker") == "refused-particle-in-array":
+                        c.violation(N9, "after reb_simulation_add refused a coincident particle (error message) the particle is still in the "
+                                    "array with a NULL cell pointer; the next reb_simulation_update_tree that swaps it crashed", job)
+                    elif res.get("hang") and "inf" in job["probe"]:
                         c.violation(N5, "reb_boundary_check does not return for a particle with %s (`while (x > L/2) x -= L` cannot make progress)" % job["probe"], job)
                     else:
                         c.violation("probe-crash", what + " (%s)" % job["probe"], job)
@@ -1875,7 +1908,7 @@ REQUIRED_DIMENSIONS = [
     "options:G!=1", "options:softening=0", "options:opening_angle=0",
     "scale:N>128",
     "probe:x=+inf periodic", "probe:x=-inf shear", "probe:x=nan periodic", "probe:variational+collision tree",
-    "probe:whfast+open+tree",
+    "probe:whfast+open+tree", "probe:refused add + tree update",
     "update_walk:scramble",
 ]
 
